@@ -9,6 +9,7 @@ ap.add_argument("ids", nargs="+")
 ap.add_argument("--also", default="")
 ap.add_argument("--tier", default="quick")
 ap.add_argument("--wt", default=None)
+ap.add_argument("--suffix", default="", help="store under seeded/<id><suffix>/ and read /tmp/wt<suffix-digit>_<id>")
 a = ap.parse_args()
 VERIF = os.path.dirname(os.path.dirname(os.path.abspath(__file__)))
 props = {json.loads(l)["id"]: json.loads(l) for l in open(os.path.join(VERIF, "properties.jsonl"))}
@@ -19,8 +20,8 @@ def sh(cmd, **kw):
 
 
 for pid in a.ids:
-    wt = a.wt or f"/tmp/wt_{pid}"
-    d = os.path.join(VERIF, "seeded", pid)
+    wt = a.wt or (f"/tmp/wt2_{pid}" if a.suffix == "_b" else f"/tmp/wt_{pid}")
+    d = os.path.join(VERIF, "seeded", pid + a.suffix)
     os.makedirs(d, exist_ok=True)
     if os.path.isdir(wt):
         diff = subprocess.run(f"git -C {wt} diff --binary -- src", shell=True, capture_output=True).stdout
